@@ -191,10 +191,16 @@ def translate(repo: Path) -> dict:
         "    if not contents:\n"
         "        break\n"
         "    depth += 1\n"
-        "    if depth > «N»:\n"
+        "    if depth «CMP» «LIMIT»:\n"
         "        raise SymrefLoop(name, depth)\n"
-        "return (refnames, ObjectID(contents) if contents else None)"))
-    max_depth = int(m.group(1))
+        "return (refnames, ObjectID(contents) if contents else None)").replace("«CMP»", "(>=|>)")
+                   .replace("«LIMIT»", r"(\d+|[A-Za-z_][A-Za-z_0-9]*)"))
+    depth_cmp, depth_limit = m.group(1), m.group(2)
+    depth_limit = int(depth_limit) if depth_limit.isdigit() else T.const_value(tree, depth_limit)
+    if not isinstance(depth_limit, int) or depth_limit < 1:
+        raise T.TranslateError(f"RefsContainer.follow: depth limit {depth_limit!r} is not a positive integer")
+    # `depth` counts successful reads; `>` N lets N of them through, `>=` N only N-1
+    max_depth = depth_limit if depth_cmp == ">" else depth_limit - 1
     _match_src("RefsContainer.read_ref", _body(T.find_def(tree, "RefsContainer.read_ref")), _esc(
         "contents = self.read_loose_ref(refname)\n"
         "if not contents:\n"
@@ -306,7 +312,11 @@ def doubleSlash : List UInt8 := {LB(dslash)}
 def localTagPrefix : List UInt8 := {LB(tagprefix)}
 /-- `ZERO_SHA` -/
 def zeroSha : List UInt8 := {LB(zero)}
-/-- `if depth > N: raise SymrefLoop` in `RefsContainer.follow` -/
+/-- `if depth <cmp> <limit>: raise SymrefLoop` in `RefsContainer.follow`: the comparison as written -/
+def symrefDepthLimit : Nat := {depth_limit}
+def symrefDepthStrict : Bool := {"true" if depth_cmp == ">" else "false"}   -- true: `>`, false: `>=`
+/-- … and what it amounts to: the number of successful reads `follow` performs without raising
+(`limit` for `>`, `limit - 1` for `>=`) -/
 def symrefMaxDepth : Nat := {max_depth}
 /-- lengths `valid_hexsha` accepts -/
 def hexShaLengths : List Nat := [{hexlens[0]}, {hexlens[1]}]
@@ -333,6 +343,9 @@ SYM = b"ref: "
 NAMES = [HEAD, b"refs/heads/a", b"refs/heads/a/b", b"refs/heads/m", b"refs/heads/s", b"refs/heads/t",
          b"refs/tags/v", b"refs/tags/w", b"refs/remotes/o/m", b"refs/heads/d/e/f"]
 WEIGHTS = [3, 5, 5, 3, 3, 2, 3, 2, 2, 2]
+CHAIN = [b"refs/heads/c%d" % i for i in range(1, 7)]       # links of symbolic-ref chains and loops
+ALL_NAMES = NAMES + CHAIN
+GIT_SYMREF_MAXDEPTH = 5                 # refs.c: git reads at most 5 refs, i.e. follows at most 4 symbolic refs
 BAD_NAME = b"refs/heads/x..y"          # rejected by _check_refname (model correspondence only)
 MISSING_TARGET = b"refs/heads/zz"      # a symref target that never exists
 NS = b"foo"
@@ -596,7 +609,10 @@ def apply_op(c, op) -> str:
 # the trivially simple map spec (the oracle; independent of the Lean model)
 
 def spec_follow(m: dict, name: bytes):
-    """-> (chain, value|None) following symrefs; 'loop' on a revisit; 'deep' beyond git's 5 hops."""
+    """-> (chain, value|None) following symrefs; 'loop' on a revisit; 'deep' for a finite chain that C git
+    does not follow either: git reads at most SYMREF_MAXDEPTH = 5 refs, so a chain of up to four symbolic refs
+    in front of a direct (or missing) ref MUST be followed — that is what "symbolic refs are followed on read
+    and on update" demands — and a fifth symbolic ref in a row is beyond what the property specifies."""
     chain, cur, seen = [], name, set()
     while True:
         if cur in seen:
@@ -606,7 +622,7 @@ def spec_follow(m: dict, name: bytes):
         v = m.get(cur)
         if v is None or not v.startswith(SYM):
             return chain, v
-        if len(chain) > 5:
+        if len(chain) >= GIT_SYMREF_MAXDEPTH:
             return "deep"
         cur = v[len(SYM):]
 
@@ -716,9 +732,7 @@ def spec_read(m: dict, op, peel):
                 return None
             return {"none", "val:" + hx(peel[f[1]])}
     if k == "T":
-        if any(spec_follow(m, x) == "deep" for x in m):
-            return None
-        return {show_map(spec_as_dict(m))}
+        return {show_map(spec_as_dict(m))}       # unresolvable names (dangling, loop, deeper than git goes) are not listed
     if k == "M":
         return {show_map({x: v[len(SYM):] for x, v in m.items() if v.startswith(SYM)})}
     if k == "U":
@@ -806,7 +820,7 @@ class Target:
             raw = {k: v for k, v in st.items() if v}
         else:
             raw = {}
-            for n in NAMES + [MISSING_TARGET, BAD_NAME]:
+            for n in ALL_NAMES + [MISSING_TARGET, BAD_NAME]:
                 try:
                     raw[n] = self.c.read_loose_ref(n)
                 except KeyError:
@@ -872,6 +886,8 @@ def gen_init(rng, repos: Repos) -> list:
     value on top; symrefs (chains, dangling, HEAD attached/detached)."""
     if rng.random() < 0.15:
         return []
+    if rng.random() < 0.25:
+        return gen_chain_init(rng, repos)
     init, have = [], {}
     names = [n for n in NAMES[1:] if rng.random() < 0.45]
     for n in names:
@@ -899,16 +915,56 @@ def gen_init(rng, repos: Repos) -> list:
     return init
 
 
-def pick_name(rng) -> bytes:
+def chain_init(repos: Repos, k: int, end: str, start_head: bool = True, loop: int = 0) -> list:
+    """`k` symbolic refs in a row (HEAD or c1 first) in front of refs/heads/m, which is `end`:
+    'loose' | 'packed' | 'both' | 'missing'; with loop = L instead a cycle of L symbolic refs (and HEAD into it)."""
+    init = []
+    if loop:
+        ring = CHAIN[:loop]
+        for i, n in enumerate(ring):
+            init.append(["symref", n, ring[(i + 1) % loop]])
+        if start_head:
+            init.append(["symref", HEAD, ring[0]])
+        init.append(["loose", b"refs/heads/m", repos.A])
+        return init
+    links = ([HEAD] if start_head else []) + CHAIN
+    links = links[:k]
+    target = b"refs/heads/m"
+    if end in ("packed", "both"):
+        init.append(["packed", target, repos.A])
+    if end == "loose":
+        init.append(["loose", target, repos.A])
+    if end == "both":
+        init.append(["loose", target, repos.B])
+    for i, n in enumerate(links):
+        init.append(["symref", n, links[i + 1] if i + 1 < len(links) else target])
+    return init
+
+
+def gen_chain_init(rng, repos: Repos) -> list:
+    if rng.random() < 0.3:
+        return chain_init(repos, 0, "loose", rng.random() < 0.5, loop=rng.randint(1, 6))
+    init = chain_init(repos, rng.randint(1, 7), rng.choice(["loose", "packed", "both", "missing"]), rng.random() < 0.7)
+    if rng.random() < 0.5:
+        init.append(["loose" if rng.random() < 0.5 else "packed", b"refs/tags/v", repos.TG])
+    return init
+
+
+def pick_name(rng, m=None) -> bytes:
     if rng.random() < 0.03:
         return BAD_NAME
+    if m is not None:
+        links = [n for n in [HEAD] + CHAIN if m.get(n, b"").startswith(SYM) and (n in CHAIN or m[n][len(SYM):] in CHAIN)]
+        if links and rng.random() < 0.55:
+            return rng.choice(links)          # read / write through some link of a symref chain
     return rng.choices(NAMES, WEIGHTS)[0]
 
 
 def gen_op(rng, m: dict, repos: Repos):
     """One operation, biased by the current raw state `m` so that conditions hold about half the time."""
     r = rng.random()
-    name = pick_name(rng)
+    name = pick_name(rng, m)
+    chainy = any(n in m for n in CHAIN)
 
     def val():
         x = rng.random()
@@ -942,6 +998,9 @@ def gen_op(rng, m: dict, repos: Repos):
         return ["X", name]
     if r < 0.68:
         n = HEAD if rng.random() < 0.25 else name
+        if chainy and rng.random() < 0.5:
+            # lengthen, shorten or close a chain
+            return ["Y", rng.choice([HEAD] + CHAIN), rng.choice(CHAIN + [b"refs/heads/m", b"refs/heads/a"])]
         return ["Y", n, rng.choice(NAMES[1:] + [MISSING_TARGET])]
     if r < 0.74:
         return ["K", rng.random() < 0.75]
@@ -1098,7 +1157,7 @@ def oracle_step(ctx, stream, mk_case, backend, op, ret, pre, post, repos):
             if r in pre_raw and collides(pre_raw, r):
                 # both `a` and `a/b` exist: only reachable through an already reported refusal failure
                 return "skip"
-        allowed = spec_step(pre_raw, op, set(NAMES))
+        allowed = spec_step(pre_raw, op, set(ALL_NAMES))
         if allowed is None:
             return "unspecified"
         for pred, m2 in allowed:
@@ -1138,9 +1197,7 @@ def git_view_check(ctx, stream, mk_case, repos: Repos, d: Path, st, c):
         return "no-HEAD"
     if any(collides(raw, k) for k in raw):
         return "collision"                      # only reachable through a (separately reported) refusal failure
-    if any(spec_follow(raw, k) == "deep" for k in raw):
-        return "deep"
-    view = spec_as_dict(raw)
+    view = spec_as_dict(raw)          # chains deeper than git follows are listed by neither side
     exp = {k: v for k, v in view.items() if k.startswith(b"refs/")}
     rc, out, err = repos.git_rc(d, "for-each-ref", "--format=%(refname) %(objectname)")
     got = dict(line.split(b" ") for line in out.splitlines()) if rc == 0 else None
@@ -1362,6 +1419,43 @@ def shrink_failures(ctx, repos, first_new: int, limit: int = 2):
         if best is not None:
             f["case"] = seq_case(backend, init, ops, len(ops) - 1)
             f["what"] = best["what"] + "  [shrunk from " + str(len(c["ops"])) + " operations]"
+
+
+def chain_script(head: bytes, repos: Repos) -> list:
+    """Reads, conditional and unconditional writes THROUGH the first link, packing, re-opening."""
+    m = b"refs/heads/m"
+    return [["G", head], ["W", head], ["Q", head], ["C", head], ["T"], ["M"], ["U"],
+            ["S", head, repos.A, repos.B], ["G", head], ["G", m], ["S", head, repos.C, repos.A],
+            ["I", head, repos.C], ["G", m], ["Q", head], ["T"],
+            ["K", True], ["G", head], ["M"], ["O"], ["G", head], ["W", head],
+            ["A", head, repos.B], ["X", m], ["A", head, repos.B], ["G", head], ["T"], ["K", False], ["G", head]]
+
+
+def stream_chains(ctx, repos):
+    """Systematic: symbolic-ref chains of every length 1..7 in front of a loose / packed / loose-over-packed /
+    missing ref, and loops of every length 1..6, built by `git symbolic-ref`; the same script on every backend;
+    C git (rev-parse, symbolic-ref, for-each-ref, show-ref) as third party wherever git itself resolves."""
+    ends = ["loose", "packed", "both", "missing"]
+    scen = []
+    for k in range(1, 8):
+        for end in (ends if k in (3, 4, 5) else [ends[k % 4]]):
+            scen.append((k, end, 0))
+    scen += [(0, "loose", L) for L in range(1, 7)]
+    every = 1 if ctx.thorough else 4
+    results = []
+    n_fail0 = len(ctx.oracle_failures)
+    for k, end, loop in scen:
+        for b in BACKENDS:
+            with_head = b not in ("nsdisk", "nsdict")      # HEAD is not namespaced: those start at c1
+            if not with_head and k > len(CHAIN):
+                continue
+            init = chain_init(repos, k, end, with_head, loop)
+            head = HEAD if with_head else CHAIN[0]
+            results.append(run_sequence(ctx, repos, b, init, chain_script(head, repos), stream="chain." + b,
+                                        git_every=every))
+    compare_with_model(ctx, results)
+    shrink_failures(ctx, repos, n_fail0, limit=3)
+    ctx.extra_cov["chain_scenarios"] = [f"{'loop' if lp else 'chain'}:{lp or k}:{end}" for k, end, lp in scen]
 
 
 def stream_sequences(ctx, repos, n_seq, n_ops=30, git_every=0):
@@ -1720,6 +1814,7 @@ def run(ctx: core.Ctx):
     _run_corpus(ctx, repos)
     stream_fmt(ctx, repos)
     stream_packed(ctx)
+    stream_chains(ctx, repos)
     stream_sequences(ctx, repos, ctx.budget(160, mult=8), git_every=5 if ctx.thorough else 0)
     ctx.extra_cov["backends"] = list(BACKENDS)
     ctx.extra_cov["universe"] = [n.decode() for n in NAMES]
